@@ -226,6 +226,12 @@ def live_tree(c, rng, ext_types):
             sub = sorted(t.dirs)[0] if t.dirs else None
             if sub:
                 hot += [sub + "/index.html", sub + "/live.html"]
+            # a link that is re-pointed while the server runs (the 'current -> releases/N' deploy): both targets keep existing
+            link_targets = [k for k in sorted(t.files) if k.count("/") == 1 and k.endswith(".txt") and not os.path.islink(t.abs(k))][:3]
+            live_link = "/live-current.txt"
+            if len(link_targets) >= 2:
+                os.symlink(os.path.basename(link_targets[0]), t.abs(live_link))
+                hot.append(live_link)
             version = 0
             steps = 40 if c.quick else 150
             # a fixed prologue (every special file is rewritten, deleted, re-created ... in turn), then random edits
@@ -233,6 +239,8 @@ def live_tree(c, rng, ext_types):
             for sp in ["/404.html", "/index.html"] + ([sub + "/index.html"] if sub else []) + regular[:1] + ["/style.css"]:
                 for k in ("rewrite-same-length", "rewrite-same-length", "delete", "create", "rewrite-other-length", "rewrite-same-length-same-mtime", "delete"):
                     script.append((sp, k))
+            if len(link_targets) >= 2:
+                script += [(live_link, "repoint-symlink")] * 4
             for step in range(len(script) + steps):
                 # --- one edit of the tree
                 if step < len(script):
@@ -243,10 +251,20 @@ def live_tree(c, rng, ext_types):
                 ap = t.abs(p)
                 exists = os.path.isfile(ap) and not os.path.islink(ap)
                 version += 1
-                if not exists and kind != "create":
+                if p == live_link and len(link_targets) >= 2:
+                    kind = "repoint-symlink"
+                    try:
+                        tmp = ap + ".new"
+                        os.symlink(os.path.basename(link_targets[version % len(link_targets)]), tmp)
+                        os.replace(tmp, ap)
+                    except OSError:
+                        kind = "none"
+                elif not exists and kind != "create":
                     kind = "create"
                 try:
-                    if kind.startswith("rewrite") and exists:
+                    if kind in ("repoint-symlink", "none"):
+                        pass
+                    elif kind.startswith("rewrite") and exists:
                         old = open(ap, "rb").read()
                         n = len(old) if "same-length" in kind else max(1, len(old) + rng.choice([-7, 1, 13, 4096]))
                         st = os.stat(ap)
